@@ -535,7 +535,11 @@ func qsTearDown(rep *qsReport) {
 	case <-time.After(hworld.Watchdog):
 		ev.Broken("quiet-spell worker (tear-down): the output stream did not end after the input had")
 	}
+	stuck := false /* An attempt did not come back: nothing after it can be trusted to. */
 	attempt := func(when string) {
+		if stuck {
+			return
+		}
 		for _, k := range []struct{ kind, key string }{{"in", "moose"}, {"out", "moose"}, {"in", "kittens"}, {"out", "kittens"}, {"io", ""}} {
 			actx, acancel := context.WithCancel(context.Background())
 			done := make(chan struct{})
@@ -559,7 +563,12 @@ func qsTearDown(rep *qsReport) {
 			}
 			acancel()
 			aw.Close()
-			<-done
+			select {
+			case <-done:
+			case <-time.After(hworld.Watchdog):
+				stuck = true
+				return
+			}
 		}
 	}
 	step := func(d time.Duration) {
@@ -581,7 +590,10 @@ func qsTearDown(rep *qsReport) {
 	close(held.release)
 	outCancel()
 	pw.Close()
-	<-outDone
+	select {
+	case <-outDone:
+	case <-time.After(hworld.Watchdog):
+	}
 	cancel()
 	select {
 	case <-doRet:
